@@ -71,17 +71,18 @@ def chain_ops(shape, fail, n):
     return {"canc": [["none"]] * (n + 1), "ops": ops}
 
 
-def run_measured(program):
+def run_measured(program, light=False):
     """-> (list of per-operation depths, final state string)"""
     K.quiet_logging()
     meter = Depth()
     r = K.Runner(program["canc"])
     depths = []
+    run = r.op_light if light else r.op
     for o in program["ops"]:
         if o[1] >= len(r.ds):
             depths.append(0)
             continue
-        meter.measure(lambda: r.op(o))
+        meter.measure(lambda: run(o))
         depths.append(meter.max)
     return depths, r.final(), r
 
@@ -106,7 +107,7 @@ def _impl(case) -> str:
         return " ".join(map(str, depths)) + " | " + final
     if kind == "chain":
         n, fail = case["n"], case["fail"]
-        depths, final, r = run_measured(chain_ops(case["shape"], fail, n))
+        depths, final, r = run_measured(chain_ops(case["shape"], fail, n), light=True)
         states = final.split(" ")
         want0 = "T:E1:0:[]" if fail else "T:1:0:[]"
         rest_ok = all(s == "T:N:0:[]" for s in states[1:])
@@ -248,19 +249,19 @@ def gen(rng, tier):
             for n in small:
                 cases.append({"kind": "program", "shape": shape, "fail": fail, "n": n,
                               "program": chain_ops(shape, fail, n)})
-            for n in ([100, 1000, 3000, 20000] if tier == "quick" else [100, 1000, 10000, 100000]):
+            for n in ([100, 1000, 10000] if tier == "quick" else [100, 1000, 10000, 100000]):
                 cases.append({"kind": "chain", "shape": shape, "fail": fail, "n": n})
     for style in ("gen", "coro"):
         for fail in (False, True):
             for lazy in (0, 7):
-                for n in ([30, 1000, 3000, 20000] if tier == "quick" else [30, 1000, 10000, 100000]):
+                for n in ([30, 1000, 20000] if tier == "quick" else [30, 1000, 10000, 100000]):
                     cases.append({"kind": "inline", "style": style, "fail": fail, "lazy": lazy, "n": n})
     # random cancel-free programs without user pauses (independent of finding F1), per-operation depths
-    for _ in range(600 if tier == "quick" else 20000):
+    for _ in range(400 if tier == "quick" else 6000):
         cases.append({"kind": "program", "program": K.rand_program(rng, rng.randrange(1, 7), rng.randrange(2, 21),
                                                                    weights=W, cancellers=False)})
     # programs with pauses placed only on Deferreds that never wait on another one
-    for _ in range(300 if tier == "quick" else 10000):
+    for _ in range(200 if tier == "quick" else 3000):
         nd = rng.randrange(2, 6)
         p = K.rand_program(rng, nd, rng.randrange(4, 18), weights=W, cancellers=False)
         leaf = nd - 1
@@ -324,10 +325,10 @@ SPEC = Spec(
     case_timeout=120.0,
     rule="4 chain shapes (outer fired first, inner fired first, innermost pre-fired, innermost paused by the user) x "
          "{success, failure}: as kernel programs for 9 lengths <= 34 (quick) / 43 lengths <= 90 (thorough) with the "
-         "frame depth of every operation compared with the model, and with 100 ... 20 000 (thorough 100 000) Deferreds "
+         "frame depth of every operation compared with the model, and with 100 ... 10 000 (thorough 100 000) Deferreds "
          "against the 10-element baseline; inlineCallbacks generators and coroutines awaiting 30 ... 20 000 (100 000) "
-         "Deferreds, all pre-fired or every 7th fired later, last one failing or not; 600 (20 000) random cancel-free "
-         "programs and 300 (10 000) with pauses on a non-waiting Deferred, depth per operation compared with the model. "
+         "Deferreds, all pre-fired or every 7th fired later, last one failing or not; 400 (6 000) random cancel-free "
+         "programs and 200 (3 000) with pauses on a non-waiting Deferred, depth per operation compared with the model. "
          "non-trivial = depth 4 reached or a long chain/loop; distinct by (case, observation)",
     trusted=["hand-written kernel model coq/Lib/DeferredK.v and the ghost depth of coq/C02/Model.v (tied by measured "
              "frame depths on the modelled cases only)",
